@@ -165,6 +165,16 @@ func SafeRun(p *Prop, in string) (obs string) {
 	return p.Run(in)
 }
 
+// Scribble overwrites caller-owned buffers after they were handed to a constructor: an
+// object that kept a reference instead of a copy computes a different function afterwards.
+func Scribble(bs ...[]byte) {
+	for _, b := range bs {
+		for i := range b {
+			b[i] ^= 0xA5
+		}
+	}
+}
+
 func H(b []byte) string {
 	if len(b) == 0 {
 		return "-"
